@@ -9,6 +9,9 @@ uint64_t force(::babylon::IdAllocator<uint32_t>& a, Box& b) {
   auto bid = b.emplace();
   auto* p = b.take_released(bid);
   b.finish_released(bid);
-  return id.version_and_value + (p != nullptr) + a.end();
+  { auto acc = b.take(bid); Box::Accessor moved(::std::move(acc)); acc = ::std::move(moved); }
+  auto tid = ::babylon::ThreadId::current_thread_id();
+  auto tid2 = ::babylon::LeakyThreadId::current_thread_id();
+  return id.version_and_value + (p != nullptr) + a.end() + tid.value + tid2.value;
 }
 }
